@@ -6,7 +6,7 @@ import ast
 
 from .. import compq, pyq, rflow
 from ..pyflow import Reach
-from ..pysrc import dotted, norm
+from ..pysrc import dotted, norm, stable
 
 CONSUMING_CALLS = {"_storeize", "compile_function_node", "Tag", "append", "extend", "compile_with_expression", "iterator", "Result"}
 NONCONSUMING_ATTRS = {"expr", "force_expr", "is_expr", "temp_variables", "rename", "lineno", "col_offset", "end_lineno", "end_col_offset"}
@@ -147,7 +147,7 @@ def check(ctx, src):
                 continue
             n_prod += 1
             p = getattr(c, "_parent", None)
-            key = f"{m.rel}|{m.qual_of(c)}|{norm(c)[:70]}"
+            key = f"{m.rel}|{m.qual_of(c)}|{stable(c)}"
             # --- anonymous projection
             if isinstance(p, ast.Attribute) and p.attr in ("expr", "force_expr"):
                 txt = norm(p)
@@ -337,29 +337,30 @@ def check(ctx, src):
     calls = [c for c in pyq.calls(ce) if isinstance(c.func, ast.Attribute) and c.func.attr == "_compile_collect"]
     ctx.need(len(calls) == 1, "compile_expression: _compile_collect call not found")
     a0 = calls[0].args[0] if calls[0].args else None
-    ctx.check(isinstance(a0, ast.Name) and a0.id == "args" and any(k.arg == "with_kwargs" and getattr(k.value, "value", None) is True for k in calls[0].keywords),
+    av = a0.id if isinstance(a0, ast.Name) else None
+    ctx.check(av is not None and any(k.arg == "with_kwargs" and getattr(k.value, "value", None) is True for k in calls[0].keywords),
               "ARGS", f"{comp.cp.rel}|compile_expression|collect(args, with_kwargs=True)", "the call's arguments are not passed whole to _compile_collect(args, with_kwargs=True)",
               comp.cp.rel, calls[0].lineno, detail=norm(calls[0]))
     # mutations of `args`
     muts = []
     for n in ast.walk(ce):
-        if isinstance(n, ast.Call) and isinstance(n.func, ast.Attribute) and isinstance(n.func.value, ast.Name) and n.func.value.id == "args" and n.func.attr in ("pop", "remove", "clear", "insert", "append"):
+        if isinstance(n, ast.Call) and isinstance(n.func, ast.Attribute) and isinstance(n.func.value, ast.Name) and n.func.value.id == av and n.func.attr in ("pop", "remove", "clear", "insert", "append"):
             muts.append(n)
         if isinstance(n, (ast.Assign, ast.AugAssign)):
             tg = n.targets[0] if isinstance(n, ast.Assign) else n.target
-            if isinstance(tg, ast.Name) and tg.id == "args" and not (isinstance(n, ast.Assign) and isinstance(n.value, ast.Call) and dotted(n.value.func) == "list"):
+            if isinstance(tg, ast.Name) and tg.id == av and not (isinstance(n, ast.Assign) and isinstance(n.value, ast.Call) and dotted(n.value.func) == "list"):
                 if isinstance(n, ast.Assign) and isinstance(tg, ast.Name) and isinstance(n.value, ast.Call) and "_compile_collect" in norm(n.value):
                     continue
                 muts.append(n)
-            if isinstance(tg, ast.Tuple) and any(isinstance(e, ast.Name) and e.id == "args" for e in tg.elts) and "_compile_collect" not in norm(n.value):
+            if isinstance(tg, ast.Tuple) and any(isinstance(e, ast.Name) and e.id == av for e in tg.elts) and "_compile_collect" not in norm(n.value):
                 muts.append(n)
-        if isinstance(n, ast.Delete) and "args" in norm(n):
+        if isinstance(n, ast.Delete) and av is not None and any(isinstance(x, ast.Name) and x.id == av for x in ast.walk(n)):
             muts.append(n)
     pops = sorted(norm(x) for x in muts)
-    ctx.check(pops == ["args.pop(0)", "args.pop(i)"], "ARGS", f"{comp.cp.rel}|compile_expression|removals", f"`args` is modified by {pops}; only the head and the method-call object may be removed",
+    ctx.check(pops == [f"{av}.pop(0)", f"{av}.pop(i)"] or (len(pops) == 2 and pops[0] == f"{av}.pop(0)" and pops[1].startswith(f"{av}.pop(")), "ARGS", f"{comp.cp.rel}|compile_expression|removals", f"`args` is modified by {pops}; only the head and the method-call object may be removed",
               comp.cp.rel, ce.lineno, witness="(.meth #** kw obj) loses **kw", detail=str(pops))
     # the loop that looks for the object must not consume an iterator over args or rebuild the list
-    loops = [n for n in ast.walk(ce) if isinstance(n, (ast.For, ast.While)) and "args" in norm(n)]
+    loops = [n for n in ast.walk(ce) if isinstance(n, (ast.For, ast.While)) and av is not None and any(isinstance(x, ast.Name) and x.id == av for x in ast.walk(n))]
     for lp in loops:
         bad = pyq.contains(lp, lambda x: isinstance(x, ast.Call) and isinstance(x.func, ast.Attribute) and x.func.attr in ("append", "extend") )
         ctx.check(bad is None, "ARGS", f"{comp.cp.rel}|compile_expression|object-search loop", "the loop that finds the method-call object rebuilds argument lists (elements can be skipped)",
